@@ -109,4 +109,17 @@ static inline int verif_fixnump(sexp x) { if (verif_registered(x)) return 0; ret
 #define sexp_fixnump(x)  verif_fixnump((sexp)(x))
 #endif
 
+/* Opt-in (-DVERIF_UF_SMUL): the signed 64x64->128 product of the VM's MUL fast path is an
+ * uninterpreted function shared by code and specification (machine multiplication trusted). */
+#ifdef VERIF_UF_SMUL
+long __CPROVER_uninterpreted_smulhi(long, long);
+unsigned long __CPROVER_uninterpreted_smullo(long, long);
+static inline sexp_lsint_t verif_smul_uf(sexp_lsint_t a, sexp_sint_t b) {
+  __CPROVER_assert(a == (sexp_lsint_t)(sexp_sint_t)a, "uf_smul.precondition: first factor fits a word");
+  return (sexp_lsint_t)(((unsigned __int128)(unsigned long)__CPROVER_uninterpreted_smulhi((long)a, b) << 64) | __CPROVER_uninterpreted_smullo((long)a, b));
+}
+#undef lsint_mul_sint
+#define lsint_mul_sint(a, b) verif_smul_uf((sexp_lsint_t)(a), (sexp_sint_t)(b))
+#endif
+
 #endif
